@@ -6,6 +6,7 @@ Re-checked by the kernel on every run; a new order-sensitive range, a write to t
 use of the caller's query or a callback without error check makes `lake build` fail.
 -/
 import Dawgs.Generated.C05_ranges
+import Dawgs.Generated.C12Api
 namespace Dawgs.C05.Facts
 open Dawgs.Generated.C05
 
@@ -62,6 +63,20 @@ theorem generic_shape :
     ∧ genericPushes = 2 ∧ genericNextBranchCalls = 1 ∧ genericPops = 3 ∧ nextBranchAdvancesIndex = true
     ∧ setErrorSetsDone = true := by decide
 
+/-! ### determinism: sorts -/
+
+/-- sorts with a caller-supplied order that are not a total order on the elements, each with its reason (none today) -/
+def exemptSorts : List (String × String × String) := []
+
+/-- **sort_comparators_total**: "sorted before use" erases iteration order only if the order is TOTAL on the elements.
+Natural sorts (`sort.Strings`, `slices.Sort`, …) are; every `sort.Slice` / `sort.SliceStable` / `slices.SortFunc` /
+`sort.Sort` in translate/, optimize/, format/, pgsql/, cypher/, walk/ must end in a comparison of the two elements
+themselves (`xs[i] < xs[j]`, `cmp.Compare(a, b)`, possibly after keyed guards), or be exempt with a reason. A comparator
+on a key FUNCTION of the element (e.g. `strings.ToLower`) leaves ties in map order. The range classifier applies the same
+rule before it answers `sorted-before-use`. -/
+theorem sort_comparators_total :
+    sortComparators.all (fun s => s.2.2.2.2.2 == 0 || exemptSorts.any (fun e => e.1 == s.1 && e.2.1 == s.2.2.1)) = true := by decide +kernel
+
 /-! ### determinism: no other source of schedule- or environment-dependence -/
 
 /-- **no_nondeterminism_sources**: besides `range` over maps (classified above) the packages translate/, optimize/, format/,
@@ -104,6 +119,16 @@ theorem inputs_not_written :
     ∧ (inputWrites.filter (fun w => wCls w == "register")).all (fun w =>
         ["Translator.buildKindIDsArray", "Translator.buildEdgeKindIDExpression", "contextAwareKindMapper.AssertKinds"].contains (wFn w)) = true
     ∧ 20 ≤ inputWrites.length := by decide +kernel
+
+/-- **library_values_not_written**: values of the graph package (`*graph.Properties`, nodes, relationships) reach the
+translator only as parameter VALUES and belong to the caller. Every method translate/, format/ or pgsql/ calls on such a
+value is, by the C12 API table regenerated from graph/*.go, one that does not write through its receiver (`mutates =
+false`); plain `graph.ID` methods are value conversions. A "lazy allocation" inside such a getter flips its flag. -/
+theorem library_values_not_written :
+    (inputWrites.filter (fun w => wKind w == "graph-method-call")).all (fun w =>
+      (w.2.2.2.2.1).startsWith "ID." ||
+      Dawgs.Generated.C12Api.methods.any (fun m => m.1 == w.2.2.2.2.1 && m.2.2.2 == false)) = true
+    ∧ (inputWrites.filter (fun w => wKind w == "graph-method-call")).length ≥ 2 := by decide +kernel
 
 /-! ### totality: the partial operations of translate/ -/
 
@@ -163,6 +188,16 @@ theorem kind_mapper_check_then_act :
     ∧ (kindMapperMethods.filter (fun m => m.name == "AssertKinds")).all (fun m => !m.writes && m.calls.contains "Put"
         && m.calls.all (fun c => c == "Put" || c == "mapKinds")) = true
     ∧ kindMapperMethods.any (fun m => m.name == "AssertKinds") = true := by decide
+
+/-- **assert_kinds_order**: either `AssertKinds` fills its result position-wise (`ids[idx] = s.Put(kinds[idx])`, the LIVE
+model `KM.assertKinds`, for which `assert_kinds_repeatable` holds — the state after hooks/C05-fix2.patch), or it has
+exactly the old known shape (`mapKinds` then `Put` for the missing kinds: found ids first, new ids after —
+`KM.assertKinds_old`, whose result order depends on the mapper's state, known finding
+C05:InMemoryKindMapper.AssertKinds:id-order-depends-on-state). -/
+theorem assert_kinds_order :
+    assertKindsPositionWise = true ∨
+    (assertKindsPositionWise = false ∧
+      (kindMapperMethods.filter (fun m => m.name == "AssertKinds")).all (fun m => m.calls == ["Put", "mapKinds"]) = true) := by decide
 
 /-- only `Put` writes the shared fields -/
 theorem kind_mapper_single_writer : (kindMapperMethods.filter (·.writes)).map (·.name) = ["Put"] := by decide
